@@ -5,6 +5,6 @@ CONSTANTS
   GenHist = FALSE
 INIT Init
 NEXT Next
-INVARIANTS OnePerSession OneObject Accounting AccountingStrong MissingBounded NonNegative QuietUnlocked
+INVARIANTS OnePerSession OneObject OneProjectEntry Accounting AccountingStrong MissingBounded NonNegative QuietUnlocked
 PROPERTIES AcceptWithinMax RelayNumIncreases AcceptedRelayNum
 CHECK_DEADLOCK TRUE
